@@ -17,13 +17,15 @@ var h04Lists = [][]string{
 	{"'tis", "of", "thee"},   // leading punctuation: strings.Title gives 'Tis
 	{"jean-luc", "o'neil"},   // multi-part words: strings.Title capitalises every part
 	{"polish", "one", "Polish", "two"}, // a capitalised twin listed after its lower-case form
+	{"abc", "ÿes", "Ÿes"},              // a twin whose capital sorts after the lower-case letter
+	{"µm", "Μm", "x"},                   // micro sign: its title-cased form is the Greek capital mu
 	{"", "ab"}, // contains the empty word (known finding D6)
 }
 
 var h04Schemes = []CapScheme{CSNone, CSFirst, CSAll, CSOne, CapScheme("sometimes"), CSRandom}
 
 // separator kinds: 0..2 constant SeparatorChar, 3.. separator functions
-const h04NSep = 9
+const h04NSep = 10
 
 var h04Counter = []string{"", "1", "2", "3", "4", "5", "6", "7", "8", "9"}
 
@@ -48,6 +50,16 @@ func h04Separator(kind int) (char string, sf SFFunction, rec *CharRecipe) {
 		// a deterministic function that reports zero entropy but numbers the gaps
 		n := 0
 		return "", func() (string, FloatE) { n++; return h04Counter[n%10], 0 }, nil
+	case 9:
+		// a function that leaves every other gap empty
+		n := 0
+		return "", func() (string, FloatE) {
+			n++
+			if n%2 == 1 {
+				return "", 0
+			}
+			return "+", 0
+		}, nil
 	default:
 		r := CharRecipe{Length: 1, AllowChars: "é✓!"}
 		return "", NewSFFunction(r), &r
@@ -109,7 +121,10 @@ func H04() {
 	// optionally, an earlier Generate with another scheme on the same list
 	if vParam("prime", 0) == 1 && (r.Capitalize == CSNone || r.Capitalize == CapScheme("sometimes")) {
 		pr := r
-		pr.Capitalize = CSAll
+		pr.Capitalize = []CapScheme{CSAll, CSRandom}[vChoice("prime-scheme", 2)]
+		if h04SepKind >= 8 {
+			pr.SeparatorFunc = nil // keep the gap counter of the stateful test separators untouched
+		}
 		vSummary(true)
 		pr.Generate()
 		vSummary(false)
@@ -181,6 +196,12 @@ func H04() {
 			case 8:
 				counter++
 				sep = h04Counter[counter%10]
+			case 9:
+				counter++
+				sep = ""
+				if counter%2 == 0 {
+					sep = "+"
+				}
 			}
 			if sepRec != nil {
 				sep = ""
